@@ -71,6 +71,8 @@ class Check:
         self.functions.setdefault(qualname, {"status": status, "obligations": 0})
 
     def add(self, name, hyps, goal, kind="post", func=None, meta=None, assumptions=()):
+        if kind == "post" and "/paths/" in name:
+            kind = "lemma"          # "which kinds of paths were explored" is a statement about the shape of the proof, not about the property
         ob = I.Obligation(f"{self.pid}/{name}", [h for h in hyps if T.is_sym(h) or not h], list(assumptions), goal, kind, meta or {})
         if func:
             ob.meta["func"] = func
@@ -212,6 +214,8 @@ class Check:
         for ob, r in zip(self.obs, results):
             if ob.meta.get("signature_for"):
                 r.meta["signature_for"] = ob.meta["signature_for"]
+        funcs_with_failed_steps = {ob.meta.get("func") for ob, r in zip(self.obs, results)
+                                   if ob.kind in INTERNAL_KINDS and r.status != "proved" and ob.meta.get("func") is not None}
         can_res = solve.discharge(self.canaries, timeout_s=10, want_model=False) if self.canaries else []
         for r in can_res:
             if r.status == "proved":
@@ -251,6 +255,10 @@ class Check:
                 path = self.write_replay(ob, r, failing)
                 violations.append(f"VIOLATION property={pid} replay={path}")
                 r.meta["violation"] = True
+            elif r.status == "refuted" and ob.kind not in INTERNAL_KINDS and ob.meta.get("func") in funcs_with_failed_steps:
+                # the final statement is refuted, but so is an internal step of the same function's proof (a loop contract that does not fit this
+                # code makes the state after the loop meaningless): not shown to hold, not a violation
+                self.undecided.append((ob.name, "refuted, but an internal proof step of the same function is not proved either (the contract does not fit this code)"))
             elif r.status == "refuted" and (ob.name in locked or ob.meta.get("case_of") in locked) and ob.kind not in INTERNAL_KINDS:
                 # a statement taken from the property (postcondition, frame, escape) that was proved on the unchanged tree is refuted now
                 path = self.write_replay(ob, r, failing)
@@ -297,6 +305,7 @@ class Check:
         self.write_evidence(results, violations, known_lines)
         if os.environ.get("VERIF_UPDATE_LOCK") == "1":
             lock[pid] = sorted(r.name for r in results if r.status == "proved")
+            lock.setdefault("_kinds", {})[pid] = {r.name: r.kind for r in results if r.status == "proved" and r.kind in ("frame",)}
             with open(os.path.join(VERIF, "obligations.lock.json"), "w") as f:
                 json.dump(lock, f, indent=0, sort_keys=True)
         else:
@@ -322,6 +331,11 @@ class Check:
                     case_parents.setdefault(r.meta["case_of"], []).append(r.status == "proved")
             lost = sorted(n for n in locked if n not in proved_now and not (n in case_parents and all(case_parents[n])))
             lost = [n for n in lost if not any(n == r.name and r.meta.get("known_finding") for r in results)]
+            # frame obligations are generated per mutation *site* of the current source: a site that no longer exists is not "lost" as long as
+            # the whole-module analysis completed and every site that exists now is proved (no undecided entry, nothing refuted)
+            site_kinds = lock.get("_kinds", {}).get(pid, {})
+            if not self.undecided and all(r.status == "proved" for r in results if r.kind == "frame"):
+                lost = [n for n in lost if site_kinds.get(n) != "frame"]
             if lost:
                 print(f"UNDECIDED property={pid} {len(lost)} obligation(s) proved on the baseline lock are not proved now, e.g. {lost[:3]}")
                 return 2
